@@ -16,6 +16,13 @@ package main
 // same-named fields kept recursively, added optional -> null, repeated ->
 // empty, required -> zero), in the same number and order.
 //
+// Variant columns (variant.go): the source stores them shredded or not, the
+// target declares them unshredded (reconstruction by convert_variant.go) or
+// alike; the specification and the model see the abstract source in which the
+// column holds the canonical encoding of the logical value.  Call histories on
+// one reader (history.go): successive reads through different targets, Reset
+// and SeekToRow between them.
+//
 // Correspondence: conversion.Convert's output rows == the extracted model's
 // convert_columns, row by row, exactly; goProject+gen.Shred == the model's
 // project (assembled and shredded by the model).
@@ -981,6 +988,9 @@ func check(c *core.Ctx, cs *c12Case) (out *findings, bucket string, nontrivial b
 	nA := len(b.srcA.Leaves())
 	if len(cs.Variants) > 0 {
 		bucket = fmt.Sprintf("%s+variant/edits=%d", cs.Kind, len(cs.Edits))
+		if b.nRebuilt > 0 && b.compatible {
+			bucket = fmt.Sprintf("%s+variant-reconstructed/edits=%d", cs.Kind, len(cs.Edits))
+		}
 	}
 	if b.layoutErr != "" {
 		out.viol("harness-schema-layout", "the library lays the columns of the schema out differently from the tree it was built from: "+b.layoutErr+info)
@@ -1227,6 +1237,17 @@ func shrink(c *core.Ctx, cs c12Case, class string) c12Case {
 			}
 		}
 	}
+	for changed := true; changed; {
+		changed = false
+		for i := range cs.Variants {
+			t := cs
+			t.Variants = append(append([]varSpec(nil), cs.Variants[:i]...), cs.Variants[i+1:]...)
+			if fails(&t) {
+				cs, changed = t, true
+				break
+			}
+		}
+	}
 	for cs.NRows > 1 {
 		t := cs
 		t.NRows--
@@ -1239,7 +1260,7 @@ func shrink(c *core.Ctx, cs c12Case, class string) c12Case {
 }
 
 func run(c *core.Ctx) {
-	c.Res.Rule = "source schemas from harness/gen (required/optional/repeated leaves of every physical type, groups, LIST groups, depth <= 3) x edit scripts of 0..6 steps (delete a field, permute the fields of a group, add an optional/required/repeated leaf or group of depth <= 2, at any depth incl. inside LIST groups and next to their element) x 0..12 rows with null runs and empty/long lists; every pair runs through Convert+conversion.Convert, ConvertRowReader, ConvertRowGroup.Rows, NewGenericReader(file, schema), NewReader(file, schema), CopyRows (file reader and plain row reader into a writer with the target schema, read back), MergeRowGroups(schema), and the column-chunk view of converted row groups; each must equal the shredding of the projected value trees, in number and order; plus a catalogue of (T1, T2) struct pairs through parquet.Write / parquet.Read[T2]; plus targets in which a same-named node changes kind (must be rejected). Non-trivial = at least one edit and one row; distinct by the JSON of the case."
+	c.Res.Rule = "source schemas from harness/gen (required/optional/repeated leaves of every physical type, groups, LIST groups, depth <= 3) x edit scripts of 0..6 steps (delete a field, permute the fields of a group, add an optional/required/repeated leaf or group of depth <= 2, at any depth incl. inside LIST groups and next to their element) x 0..12 rows with null runs and empty/long lists; every pair runs through Convert+conversion.Convert, ConvertRowReader, ConvertRowGroup.Rows, NewGenericReader(file, schema), NewReader(file, schema), CopyRows (file reader and plain row reader into a writer with the target schema, read back), MergeRowGroups(schema), and the column-chunk view of converted row groups; each must equal the shredding of the projected value trees, in number and order; in a quarter of the pairs the source holds 1-2 VARIANT columns (required/optional/repeated, in any group) stored unshredded or shredded with a declared type (bool/int32/int64/double/string/bytes/date leaf, object, array, nested to depth 2) that the target declares unshredded (reconstruction) or with the same layout, the edit script deleting / permuting / adding siblings before and after them; the file rows are the shredding (harness implementation of VariantShredding.md) of generated logical values, the expected target pair is any encoding that decodes to the same logical value, at exactly the expected column, place and levels; NewGenericReader(file, schema) and NewReader(file, schema) are also driven through ReadRows(k)/SeekToRow/Reset histories; plus call histories on one deprecated parquet.Reader: source and 2-3 edited views rendered as Go struct types (reflect.StructOf), Read(&view_k) / ReadRows / SeekToRow / Reset sequences of 2-8 calls, files written with the generated schema or with the schema of the source struct type (identity shortcut), one or two row groups, reader opened plain or with a view schema, every value read deconstructed and compared with the shredding of the projection of the row at the reader position; plus a catalogue of (T1, T2) struct pairs through parquet.Write / parquet.Read[T2] and Read(k)/SeekToRow/Reset histories on one GenericReader[T2], incl. files with a shredded variant column (5 declared types, top level and in a repeated group) read into structs that declare it plain and add columns before/after/around it; plus targets in which a same-named node changes kind (must be rejected). Non-trivial = at least one edit and one row (histories: at least two distinct views read); distinct by the JSON of the case."
 	if modelMode != "fixed" {
 		c.Note("model selected by C12_MODEL=%s", modelMode)
 	}
@@ -1280,6 +1301,7 @@ func run(c *core.Ctx) {
 			}
 		}
 	}
+	histories(c)
 	typed(c)
 	writeVm(c, vm)
 }
@@ -1530,6 +1552,7 @@ func typed(c *core.Ctx) {
 		typedPair(c, "map-value", rowsM, wantM)
 		typedPair(c, "identity", rows, rows)
 	}
+	typedVariants(c)
 }
 
 func typedPair[T1, T2 any](c *core.Ctx, name string, rows []T1, want []T2) {
@@ -1538,26 +1561,7 @@ func typedPair[T1, T2 any](c *core.Ctx, name string, rows []T1, want []T2) {
 		c.Violation("typed-write-error", name+": "+err.Error(), nil)
 		return
 	}
-	var got []T2
-	err := guarded(func() error {
-		var e error
-		got, e = parquet.Read[T2](bytes.NewReader(buf.Bytes()), int64(buf.Len()))
-		return e
-	})
-	replay := map[string]any{"typed": name, "rows": rows}
-	if err != nil {
-		c.Violation("typed-"+map[bool]string{true: "panic", false: "error"}[strings.HasPrefix(err.Error(), "PANIC")], fmt.Sprintf("parquet.Read[%T] of a file written with %T: %s", *new(T2), *new(T1), core.Trunc(err.Error(), 300)), replay)
-	} else if len(got) != len(want) {
-		c.Violation("typed-row-count", fmt.Sprintf("%s: wrote %d rows, read %d", name, len(want), len(got)), replay)
-	} else {
-		for i := range got {
-			if !normEqual(reflect.ValueOf(got[i]), reflect.ValueOf(want[i])) {
-				c.Violation("typed-row-differs", fmt.Sprintf("%s: row %d: want %s got %s", name, i, jsonOf(want[i]), jsonOf(got[i])), replay)
-				break
-			}
-		}
-	}
-	c.Case("typed/"+name, fmt.Sprintf("%s %s", name, jsonOf(rows)), len(rows) > 0)
+	typedRead(c, name, buf.Bytes(), rows, want)
 }
 
 func jsonOf(v any) string {
@@ -1599,6 +1603,11 @@ func normEqual(a, b reflect.Value) bool {
 			}
 		}
 		return true
+	case reflect.Interface:
+		if a.IsNil() || b.IsNil() {
+			return a.IsNil() == b.IsNil()
+		}
+		return anyEqual(a.Interface(), b.Interface())
 	case reflect.Struct:
 		for i := 0; i < a.NumField(); i++ {
 			if !normEqual(a.Field(i), b.Field(i)) {
@@ -1611,6 +1620,11 @@ func normEqual(a, b reflect.Value) bool {
 }
 
 func replay(c *core.Ctx, raw json.RawMessage) {
+	var hc histCase
+	if err := json.Unmarshal(raw, &hc); err == nil && hc.Kind == "history" {
+		runHistCase(c, hc, true)
+		return
+	}
 	var cs c12Case
 	if err := json.Unmarshal(raw, &cs); err != nil || cs.Kind == "" {
 		c.Note("replay is not a generated schema-pair case (typed catalogue cases are rerun with the recorded seed)")
